@@ -142,3 +142,23 @@ pub proof fn lemma_outer_keys_step(s: Seq<LinkedHashMap<TransactionInput, Option
 pub open spec fn all_wits_wf(s: Seq<LinkedHashMap<TransactionInput, Option<ScriptWitnessType>>>) -> bool {
     forall|i: int, j: int| 0 <= i < s.len() && 0 <= j < s[i].vals().len() ==> wit_wf(#[trigger] s[i].vals()[j])
 }
+// ---- Plutus language versions a source brings into the script-integrity hash (C09): the language of EVERY Plutus witness, whether the
+// script is attached or referenced
+pub open spec fn src_lang(s: PlutusScriptSourceEnum) -> Language {
+    match s { PlutusScriptSourceEnum::Script(script, _) => script.lang(), PlutusScriptSourceEnum::RefInput(r, _) => r.language }
+}
+pub open spec fn wit_langs(w: Option<ScriptWitnessType>) -> Set<Language> {
+    match w { Some(ScriptWitnessType::PlutusScriptWitness(s)) => set![src_lang(s.script)], _ => Set::empty() }
+}
+pub open spec fn certs_langs(s: Seq<(Certificate, Option<ScriptWitnessType>)>) -> Set<Language> decreases s.len() {
+    if s.len() == 0 { Set::empty() } else { certs_langs(s.drop_last()) + wit_langs(s.last().1) }
+}
+pub proof fn lemma_certs_langs_step(s: Seq<(Certificate, Option<ScriptWitnessType>)>, i: int)
+    requires 0 <= i < s.len() ensures certs_langs(s.take(i + 1)) == certs_langs(s.take(i)) + wit_langs(s[i].1)
+{ assert(s.take(i + 1).drop_last() =~= s.take(i)); }
+pub open spec fn wds_langs(s: Seq<(RewardAddress, (Coin, Option<ScriptWitnessType>))>) -> Set<Language> decreases s.len() {
+    if s.len() == 0 { Set::empty() } else { wds_langs(s.drop_last()) + wit_langs(s.last().1.1) }
+}
+pub proof fn lemma_wds_langs_step(s: Seq<(RewardAddress, (Coin, Option<ScriptWitnessType>))>, i: int)
+    requires 0 <= i < s.len() ensures wds_langs(s.take(i + 1)) == wds_langs(s.take(i)) + wit_langs(s[i].1.1)
+{ assert(s.take(i + 1).drop_last() =~= s.take(i)); }
